@@ -29,7 +29,7 @@ def can_cast(a, b):
     return promote(a, b) == b
 
 
-OPS = ["fill_int", "fill_float", "filln_none", "filln_int", "filln_float", "add", "sub", "iadd", "isub", "mul_int", "mul_float", "imul_float", "div", "idiv", "normalize", "merge", "setdtype"]
+OPS = ["fill_int", "fill_float", "fill_float_out", "filln_none", "filln_int", "filln_float", "add", "sub", "iadd", "isub", "mul_int", "mul_float", "imul_float", "div", "idiv", "normalize", "merge", "setdtype"]
 
 
 @register
@@ -70,7 +70,10 @@ class C13Ops(Harness):
             cx.assume(z3.Or(frac == 0, big <= 256))
             if p["t0"][0] == "i":
                 cx.assume(big <= int(INFO[p["t0"]]))
-        if cx.sym:
+        if cx.sym and p["op"] == "fill_float_out":
+            # a value outside the bins [0, 2]: the float weight goes to underflow / overflow
+            cx.assume(z3.Or(z3.And(cx.t(x["v"]) >= -1, cx.t(x["v"]) < 0), z3.And(cx.t(x["v"]) > 2, cx.t(x["v"]) <= 3)))
+        elif cx.sym:
             cx.assume(x["v"] >= 0, x["v"] <= 2)
             if p["op"] in ("sub", "isub"):
                 cx.assume(*[a >= b for a, b in zip(x["f"], x["g"])])
@@ -107,7 +110,7 @@ class C13Ops(Harness):
             if op == "fill_int":
                 h.fill(val, x["n"])
                 return h
-            if op == "fill_float":
+            if op in ("fill_float", "fill_float_out"):
                 h.fill(val, float(wf) if not E.sym else wf)
                 return h
             if op == "filln_none":
@@ -207,6 +210,10 @@ class C13Ops(Harness):
             exp_dt, ref = promote(t0, "int64"), [f[0] + z3.If(in0, n, 0), f[1] + z3.If(in1, n, 0)]
         elif op == "fill_float":
             exp_dt, ref = promote(t0, "float64"), [f[0] + z3.If(in0, k4, 0), f[1] + z3.If(in1, k4, 0)]
+        elif op == "fill_float_out":
+            exp_dt, ref = promote(t0, "float64"), [f[0], f[1]]
+            if not p["nd"]:
+                yield "float_weight_recorded_as_missed", z3.And(cx.eq(r["under"], z3.If(v < 0, k4, 0)), cx.eq(r["over"], z3.If(v > 2, k4, 0)))
         elif op == "filln_none":
             exp_dt, ref = t0, [f[0] + z3.If(in0, 1, 0), f[1] + z3.If(in1, 1, 0)]
         elif op == "filln_int":
@@ -244,8 +251,10 @@ class C13Construct(Harness):
     bounds_doc = "h1 / h (N=1) with weights none / int / float and dtype None or each supported dtype: inferred dtype, refusal of integer dtype with float weights, values not truncated"
 
     def instances(self, tier):
-        for wk in ("none", "int", "float"):
+        for wk in ("none", "int", "float", "float32", "float16"):
             for dt in [None] + DTYPES:
+                if wk in ("float32", "float16") and dt not in (None, "int64", "int16", "float64"):
+                    continue
                 for nd in (False, True):
                     if tier == "quick" and nd and dt not in (None, "int32", "float32"):
                         continue
@@ -263,8 +272,8 @@ class C13Construct(Harness):
         kw = {}
         if p["weights"] == "int":
             kw["weights"] = np.asarray([x["n"]], dtype=int)
-        elif p["weights"] == "float":
-            kw["weights"] = np.asarray([x["k"] / 4.0], dtype=float)
+        elif p["weights"].startswith("float"):
+            kw["weights"] = np.asarray([x["k"] / 4.0], dtype=(float if p["weights"] == "float" else p["weights"]))
         if p["dtype"]:
             kw["dtype"] = p["dtype"]
         if p["nd"]:
@@ -279,15 +288,15 @@ class C13Construct(Harness):
             return
         r = obs["res"]
         dt, wk = p["dtype"], p["weights"]
-        if dt and dt[0] == "i" and wk == "float":
+        if dt and dt[0] == "i" and wk.startswith("float"):
             yield "int_dtype_float_weights_refused", "raised" in r and r["raised"].name == "ValueError"
             return
         yield "no_exception", "raised" not in r
         if "raised" in r:
             return
-        exp = dt or ("float64" if wk == "float" else "int64")
+        exp = dt or ({"float": "float64", "float32": "float32", "float16": "float16"}.get(wk, "int64"))
         yield "dtype", r["dtype"] == exp == r["fdtype"] == r["edtype"]
-        ref = {"none": z3.IntVal(1), "int": cx.t(x["n"]), "float": z3.ToReal(cx.t(x["k"])) / 4}[wk]
+        ref = {"none": z3.IntVal(1), "int": cx.t(x["n"])}.get(wk, z3.ToReal(cx.t(x["k"])) / 4)
         val = r["freq"][0][0] if p["nd"] else r["freq"][0]
         yield "value_not_truncated", cx.eq(val, ref)
 
